@@ -181,6 +181,8 @@ class Lib:
             return ModuleV("logger")
         if name in ("permutations", "combinations", "product", "chain"):
             return ModuleV("itertools." + name)
+        if name in ("_variable_or_iterable_to_set", "_powerset"):
+            return ModuleV("pgmpy.utils.sets." + name)
         return None
 
     # ---- objects
@@ -380,6 +382,16 @@ class Lib:
             return Coll("iter", Atom, z3.Lambda([x], P(u, x)), nodup=True)
         if name.startswith("logger."):
             return NONE
+        if name == "pgmpy.utils.sets._variable_or_iterable_to_set":
+            # assumed contract of the helper (names are strings): None -> {}, a name -> {name}, an iterable -> frozenset(it)
+            ex.assumed.add("pgmpy.utils.sets._variable_or_iterable_to_set: None -> {}, str -> {x}, iterable of str -> frozenset(x) (names are str)")
+            x = args[0]
+            if isinstance(x, NoneV):
+                return Coll("frozenset", Atom, empty_set(Atom), items=[])
+            if isinstance(x, Scalar):
+                return Coll("frozenset", Atom, z3.Store(empty_set(Atom), x.z, True), items=[x])
+            c = ex.as_coll(x, st, Atom)
+            return Coll("frozenset", Atom, c.mem if c.mem is not None else empty_set(Atom))
         if name in ("nx.all_simple_paths",):
             g, u, v = args[0], z3_of(args[1]), z3_of(args[2])
             ex.oblige(st, z3.And(N_(g, u), N_(g, v)), "call.nx.all_simple_paths.nodes-present")
